@@ -237,7 +237,9 @@ static bool s_parse_rfc_822(
                     state = ON_SPACE_DELIM;
                     state_start_index = index + 1;
                 } else if (aws_isdigit(c)) {
+                    /* no week day: this is already the first digit of the day of the month */
                     state = ON_MONTH_DAY;
+                    parsed_time->tm_mday = c - '0';
                 } else if (!aws_isalpha(c)) {
                     error = true;
                 }
